@@ -308,7 +308,6 @@ impl<'de, R: Reader<'de>> Parser<R> {
 // whitespace and then `,` `]` `}` or the end of input — it ends exactly where the validating skipper ends (the
 // literal's last byte), not at the next token.
 pub open spec fn is_num_char(c: u8) -> bool { is_digit(c) || c == 0x2d || c == 0x2b || c == 0x2e || c == 0x65 || c == 0x45 }
-pub open spec fn is_tok(c: u8) -> bool { c == 0x5d || c == 0x7d || c == 0x2c }
 pub proof fn lemma_digits_chars(s: Seq<u8>, i: int)
     requires 0 <= i <= s.len(),
     ensures forall|j: int| i <= j < digits_end(s, i) ==> is_num_char(#[trigger] s[j]),
